@@ -11,7 +11,8 @@ RULE = ("one child process per case. Every combination of enum-valued fields is 
         "non-dividing, 600000, u32::MAX; zero durations; empty and blank names; memory marks around the machine's total memory), loaded through load_rules / load_rules_of_resource / append_rule "
         "(also with an empty resource name), followed by 2-8 entries (batch 0/1/5/1e6; args none/empty/short/long; attachments; inbound/outbound; clock advances; exits with and without error) "
         "and a health probe of all five managers (get_rules, load a valid rule for an unrelated resource, entry, exit, clear). Extra stream: hotspot rules with LRU capacity 1..3 under 15-30 "
-        "entries over 5 parameter values. Non-trivial: every case (a rule is defined, validated by both sides, loaded and exercised); distinct = distinct op text.")
+        "entries over 5 parameter values. Sequence stream: per family and refusal clause, a loading call with the refused rule followed by another entry point with an accepted rule (all "
+        "pairs of entry points, both orders), then entries repeating one argument with clock advances. Non-trivial: every case (a rule is defined, validated by both sides, loaded and exercised); distinct = distinct op text.")
 NONTRIVIAL_TAGS = ["probe"]
 ASSUMPTIONS = ["a panic is observed by catch_unwind in a child process, a hang by a 10 s wall-clock limit per case under the virtual clock",
                "the harness is built with overflow checks on (the dev profile the repository's own tests use)"]
@@ -264,9 +265,41 @@ def clause_cases(rng):
     return cases
 
 
+def sequence_cases(rng):
+    """two loading calls in a row for one resource: a set containing a refused rule, then an accepted rule through another entry
+    point (and the other way round). What the first call refused must stay refused: it must not be enforced - and must not
+    panic - after the second call. The entries repeat one argument with clock advances in between (token refills, throttling slots)."""
+    cases = []
+    extra_hs = [("duration-reject", "res=a metric=q ctl=r idx=0 key=- thr=2 dur=0 cap=0"), ("duration-burst", "res=a metric=q ctl=r idx=0 key=- thr=0 dur=0 burst=3 cap=0")]
+    for fam, rules in CLAUSE_RULES.items():
+        bad = [r for r in rules if not r[0].startswith("ok")] + (extra_hs if fam == "hs" else [])
+        ok = rules[0][1]
+        vias = ["all", "append"] if fam == "sys" else ["all", "res", "append"]
+        for (cl, text) in bad:
+            for v1, v2, order in itertools.product(vias, vias, (0, 1)):
+                    if v1 == v2 == "all":
+                        continue
+                    ops = ["sys.total", "rule fam=%s id=x1 %s" % (fam, text),
+                           "rule fam=%s id=x2 %s" % (fam, ok.replace("thr=5", "thr=7").replace("thr=3", "thr=4").replace("thr=2", "thr=3").replace("thr=1000", "thr=2000"))]
+                    def load(via, ids):
+                        return ("load fam=%s via=res res=a ids=%s" % (fam, ids)) if via == "res" else ("load fam=%s via=%s ids=%s" % (fam, via, ids))
+                    first, second = ("x1", "x2") if order == 0 else ("x2", "x1")
+                    ops.append(load(v1, first))
+                    ops.append(load(v2, second if v2 == "append" else first + "," + second))
+                    for i in range(rng.randint(3, 6)):
+                        ops.append("build res=a batch=%d args=x%s" % (rng.choice([1, 1, 2]), rng.choice(["", ",y", ""])))
+                        ops.append("adv ms=%d" % rng.choice([1, 2, 500, 1000, 1500]))
+                        if rng.random() < 0.5:
+                            ops.append("exit err=%d" % (1 if rng.random() < 0.3 else 0))
+                    ops += ["exit"] * 3
+                    ops.append("probe")
+                    cases.append(ops)
+    return cases
+
+
 def gen(rng, tier):
     k = 2 if tier == "quick" else 24
-    cases = clause_cases(rng)
+    cases = clause_cases(rng) + sequence_cases(rng)
     for _ in range(k):
         for calc, ctl, rel in itertools.product("dwmc", "rtc", ["c", "a-seen", "a-unseen", "a-empty"]):
             cases.append(flow_case(rng, calc, ctl, rel))
